@@ -39,7 +39,9 @@ Definition muv (u : measure) (r : nat) : 'cV[F]_(uD u) := cvf (uD u) (getmu u r)
 Record cache_ok_at (u : measure) (r : nat) : Prop := CacheOk {
   co_sym : (Lm u r)^T = Lm u r;
   co_S : uSig u -> [/\ Sg u r *m Lm u r = 1%:M, 0 < \det (Sg u r) & gethS u r = hln LS (\det (Sg u r))];
-  co_ld : uSig u -> [/\ isSome (uhldS u), isSome (uhldL u) & odflt (fun _ => 0) (uhldL u) r = - gethS u r];
+  (* ln_det_Sigma is always stored next to Sigma; ln_det_Lambda only by some constructors (never by
+     GaussianPDF), and when present it is the negative *)
+  co_ld : uSig u -> isSome (uhldS u) /\ (forall hL, uhldL u = Some hL -> hL r = - gethS u r);
   co_mu : umu u -> uSig u /\ muv u r = Sg u r *m nuv u r;
   co_lnZ : ulnZ u -> uSig u /\
            getlnZ u r = emb LS (half F * sc ((nuv u r)^T *m Sg u r *m nuv u r)) + hl2p LS *+ (uD u) + gethS u r }.
@@ -62,7 +64,8 @@ Record cond_ok_at (c : cond) (r : nat) : Prop := CondOk {
   cd_inv : cSg c r *m cLm c r = 1%:M;
   cd_sym : (cLm c r)^T = cLm c r;
   cd_pos : 0 < \det (cSg c r);
-  cd_hld : chS c r = hln LS (\det (cSg c r)) }.
+  cd_hld : chS c r = hln LS (\det (cSg c r));
+  cd_id : cident (ccl c) -> cDy c = cDx c }.      (* identity-mean classes are square (Dx = Dy by construction) *)
 Definition cond_ok (c : cond) : Prop := forall r, (r < cR c)%N -> cond_ok_at c r.
 
 End Spec.
